@@ -120,7 +120,7 @@ func main() {
 			}
 		}
 	}
-	o.WriteFile("pre.v", "From Sekai Require Import Base.Prelude Base.Dec Model.Halt Model.C06Check.\nOpen Scope string_scope.\nOpen Scope Z_scope.\n")
+	o.WriteFile("pre.v", "From Sekai Require Import Base.Prelude Base.Dec Gen.PanicSites Model.Halt Model.C06Check.\nOpen Scope Z_scope.\n")
 	o.WriteFile("cases.txt", strings.Join(lines, "\n")+"\n")
 	o.WriteJSON("cases.json", js)
 	o.WriteJSON("meta.json", map[string]string{"case_type": "c06_case", "mismatch_fn": "c06_mismatches", "violation_fn": "c06_violations"})
